@@ -795,6 +795,7 @@ inductive Op where
   | curNull (c : Nat)
   | curInto (c b off len : Nat)
   | curFromBuf (c b : Nat)
+  | curSub (dst src off len : Nat)                   -- sub-view [off, off+len) of another cursor (bytes stay around it)
   | bufFromArray (b : Nat) (bs : List UInt8)
   | bufFromEmptyArray (b cap : Nat)
   -- aws_byte_buf
@@ -905,6 +906,10 @@ def step (s : State) : Op → Except Fault (Res × State)
                 else .ok (.code (some .invalidArgument), s)
     | none => .ok (.code (some .invalidArgument), s)
   | .curFromBuf c b => .ok (.unit, s.setCur c (s.bufs b).asCur)
+  | .curSub dst src off len =>
+    let sc := s.curs src
+    if off + len ≤ sc.len ∧ sc.rid.isSome then .ok (.code none, s.setCur dst { sc with off := sc.off + off, len := len })
+    else .ok (.code (some .invalidArgument), s)
   | .bufFromArray b bs =>
     if bs.length > SIZE_MAX then .error .badOperand else
     if bs.length = 0 then .ok (.unit, s.setBuf b ⟨none, 0, 0, false⟩) else
